@@ -548,3 +548,72 @@ def p9_antecedent(check: Check, rule: str = "P9") -> None:
              lambda res: (any(k == "return" and t == want0 for k, t, _ in res) and all(k in ("return", "raise") for k, _, _ in res),
                           "without a node the whole expression is evaluated with the same operators"
                           if any(k == "return" and t == want0 for k, t, _ in res) else f"root call is {[(k, show(t) if t else None) for k, t, _ in res]}"))
+
+
+# --------------------------------------------------------------------------------------------------------------- RL-sem
+def rule_load_semantics(check: Check, rule: str = "RL-sem") -> None:
+    """RL-sem [E]: `Rule.load(engine)` interpreted (sa/absexec.py) on model rules whose antecedent and consequent are each loaded or not (and
+    whose text may have been changed since): it deactivates the rule and loads *both* parts with the engine handed in, whatever was loaded
+    before - a part that is "already loaded" holds the tree of an earlier text. `Rule.unload()` deactivates and unloads both parts."""
+    from ..absexec import AbsExec, Internal, MObj, Raised, Unknown, _Return
+
+    p = check.program
+    for meth in ("load", "unload"):
+        fn = p.func(f"Rule.{meth}")
+        check.analysed(fn)
+        node = fn.node
+        params = [a.arg for a in node.args.args]
+        bad = None
+        cases = 0
+        try:
+            for a_loaded in (False, True):
+                for c_loaded in (False, True):
+                    cases += 1
+                    log: list[tuple] = []
+                    engine = MObj("Engine", {"__bool__": True})
+
+                    def part(name: str, loaded: bool) -> MObj:
+                        return MObj(name, {"loaded": loaded, "__bool__": True, "text": "text"})
+
+                    ant, con = part("Antecedent", a_loaded), part("Consequent", c_loaded)
+
+                    def load(ex_, e, recv, args, kw):
+                        log.append(("load", recv.cls, (args[0] if args else kw.get("engine")) is engine))
+                        recv.fields["loaded"] = True
+
+                    def unload(ex_, e, recv, args, kw):
+                        log.append(("unload", recv.cls))
+                        recv.fields["loaded"] = False
+
+                    hooks = {"method:load": load, "method:unload": unload, "method:is_loaded": lambda ex_, e, recv, args, kw: recv.fields["loaded"],
+                             "method:deactivate": lambda ex_, e, recv, args, kw: log.append(("deactivate",))}
+                    me = MObj("Rule", {"antecedent": ant, "consequent": con, "enabled": True, "weight": 1.0, "activation_degree": 0.5, "triggered": True})
+                    ex = AbsExec(fn.qualname, hooks, helpers={k: v for k, v in fn.cls.methods.items() if k not in ("load", "unload", "deactivate", "is_loaded")})
+                    env = {params[0]: me}
+                    if meth == "load":
+                        env[params[1]] = engine
+                    try:
+                        ex.block(list(node.body), env)
+                    except _Return:
+                        pass
+                    except (Raised, Internal) as err:
+                        bad = bad or f"antecedent {'loaded' if a_loaded else 'not loaded'}, consequent {'loaded' if c_loaded else 'not loaded'}: Rule.{meth} ends with {err.cls}"
+                        continue
+                    what = f"antecedent {'already loaded' if a_loaded else 'not loaded'}, consequent {'already loaded' if c_loaded else 'not loaded'}"
+                    if meth == "load":
+                        want = [("load", "Antecedent", True), ("load", "Consequent", True)]
+                        got = [ev for ev in log if ev[0] == "load"]
+                        if sorted(got) != sorted(want):
+                            bad = bad or (f"{what}: Rule.load loads {[g[1] for g in got] or 'nothing'}" + ("" if all(g[2] for g in got) else " (not with the engine handed in)")
+                                          + ", specified: the antecedent and the consequent, from their current texts, with the engine handed in - a part left as it was "
+                                          "keeps the tree of an earlier text")
+                    else:
+                        if not (ant.fields["loaded"] is False and con.fields["loaded"] is False):
+                            bad = bad or f"{what}: after Rule.unload a part of the rule is still loaded"
+                    if log[:1] != [("deactivate",)] and ("deactivate",) not in log:
+                        bad = bad or f"{what}: Rule.{meth} does not deactivate the rule (its degree and triggered flag belong to the tree that is replaced)"
+        except Unknown as u:
+            raise AnalysisError(str(u)) from None
+        check.require(bad is None, rule, f"Rule.{meth}/both-parts", (f"Rule.{meth} deactivates the rule and {'loads' if meth == 'load' else 'unloads'} antecedent and consequent "
+                                                                     f"whatever was loaded before ({cases} states)") if bad is None else bad, loc(fn), {"cases": cases},
+                      exhaustive=True, cases=cases)
